@@ -293,4 +293,46 @@ Section WithBlockCompressor.
     | [] => ([], c)
     | o :: r => let '(x, c1) := step c o in let '(xs, c2) := run c1 r in (x :: xs, c2)
     end.
+
+  (* ---- one frame: Begin, any list of update/uncompressedUpdate/flush calls, End ---- *)
+  Inductive mop := MUpdate (src : list byte) | MUncompressed (src : list byte) | MFlush.
+  Definition step_mop (c : cctx) (m : mop) : res * cctx :=
+    match m with
+    | MUpdate s => compressUpdate c s
+    | MUncompressed s => uncompressedUpdate c s
+    | MFlush => flush c
+    end.
+  (* all calls must succeed: concatenated output and final context *)
+  Fixpoint run_mops (c : cctx) (ms : list mop) : option (list byte * cctx) :=
+    match ms with
+    | [] => Some ([], c)
+    | m :: r =>
+      match step_mop c m with
+      | (Out o, c1) => match run_mops c1 r with Some (o2, c2) => Some (o ++ o2, c2) | None => None end
+      | _ => None
+      end
+    end.
+  Fixpoint mop_inputs (ms : list mop) : list byte :=
+    match ms with
+    | [] => []
+    | MUpdate s :: r => s ++ mop_inputs r
+    | MUncompressed s :: r => s ++ mop_inputs r
+    | MFlush :: r => mop_inputs r
+    end.
+  Definition is_uncompressed (m : mop) : bool := match m with MUncompressed _ => true | _ => false end.
+  (* (frame bytes, input bytes) of a frame in which no call reports an error *)
+  Definition session (c0 : cctx) (po : option prefs) (dk : dictkind) (ms : list mop)
+    : option (list byte * list byte) :=
+    match compressBegin c0 po dk with
+    | (Out hdr, c1) =>
+      match run_mops c1 ms with
+      | Some (body, c2) =>
+        match compressEnd c2 with
+        | (Out tail, _) => Some (hdr ++ body ++ tail, mop_inputs ms)
+        | _ => None
+        end
+      | None => None
+      end
+    | _ => None
+    end.
 End WithBlockCompressor.
